@@ -94,7 +94,19 @@ A_INTERN void *a_que_back(a_que const *ctx)
 */
 A_INTERN void a_que_swap_(void *lhs, void *rhs)
 {
-    a_list_swap_node(a_cast_s(a_list *, lhs) - 1, a_cast_s(a_list *, rhs) - 1);
+    a_list *const l = a_cast_s(a_list *, lhs) - 1;
+    a_list *const r = a_cast_s(a_list *, rhs) - 1;
+    if (l->next == r) /* a-l-r-b => a-r-l-b */
+    {
+        a_list_del_node(l);
+        a_list_add_next(r, l);
+    }
+    else if (r->next == l) /* a-r-l-b => a-l-r-b */
+    {
+        a_list_del_node(r);
+        a_list_add_next(l, r);
+    }
+    else { a_list_swap_node(l, r); }
 }
 
 #if defined(__cplusplus)
